@@ -94,6 +94,7 @@ type Event struct {
 }
 
 type Sim struct {
+	handoff bool // set by HandOff: the next pick prefers a lock waiter
 	cfg   Config
 	Tapes *Tapes
 
@@ -741,7 +742,34 @@ func Run(cfg Config, tapes *Tapes, main func()) (*Sim, *Outcome) {
 	return s, out
 }
 
+// HandOff is called by a task that has just released a lock other tasks are waiting for. In a
+// quarter of the cases (tape "hof") the releasing task is parked at its next point and a waiter for a
+// lock runs until it blocks: code that goes on using what the lock protected after releasing it
+// (unlock-then-act) meets its successor at once instead of once in ten thousand schedules.
+func HandOff() {
+	s := active.Load()
+	if s == nil || s.cfg.CoRelease || s.cfg.Policy == FIFO {
+		return
+	}
+	t := s.taskOfG()
+	if t == nil || s.Choose("hof", 4) != 1 {
+		return
+	}
+	s.handoff = true
+	t.budget, t.sbudget = 0, 0
+}
+
 func (s *Sim) pick(elig []*Task) *Task {
+	if s.handoff {
+		s.handoff = false
+		for _, c := range elig {
+			if c != s.lastTask && (strings.HasPrefix(c.parkedAt, "Lock ") || strings.HasPrefix(c.parkedAt, "RLock ")) {
+				c.budget, c.sbudget = inf, inf
+				s.Probes["scheduler: lock handed to a waiter, releasing task parked"]++
+				return c
+			}
+		}
+	}
 	// Put the task that ran last first, so that choice 0 means "keep going".
 	if s.lastTask != nil {
 		for i, t := range elig {
